@@ -185,7 +185,10 @@ def run_task(prop, check: Check, check_index, tier, seed, shard, nshards, findin
             pass
         except Inconclusive:
             ctx.ev.inconclusive += 1
-        except (Violation, HarnessError):
+        except Violation as v:
+            last.setdefault('first_violation', {'case': json.loads(json.dumps(case, default=str)), 'message': str(v), 'sig': v.sig})
+            raise
+        except HarnessError:
             raise
         except Exception as e:  # noqa: BLE001
             if in_repo(e.__traceback__):
@@ -221,7 +224,13 @@ def run_task(prop, check: Check, check_index, tier, seed, shard, nshards, findin
     except HarnessError as e:
         out['error'] = f'HarnessError: {e}\n' + traceback.format_exc()
     except Exception as e:  # noqa: BLE001
-        if check.machine is not None and in_repo(e.__traceback__):
+        flaky = type(e).__name__ in ('Flaky', 'FlakyFailure', 'FlakyStrategyDefinition', 'FlakyReplay')
+        if flaky and last.get('first_violation'):
+            # the oracle did fail on a real execution, but Hypothesis could not reproduce it when replaying the case:
+            # the failure depends on what the process did before (state leaking between cases inside the code under test)
+            fv = last['first_violation']
+            out['violation'] = {'case': fv['case'], 'message': fv['message'] + '  [history-dependent: not reproduced when the case was replayed in the same process]', 'sig': fv['sig']}
+        elif check.machine is not None and in_repo(e.__traceback__):
             out['violation'] = {'case': last.get('case'), 'message': f'unexpected {type(e).__name__} inside repository code: {e}', 'sig': {'kind': 'raises'}}
         else:
             out['error'] = f'{type(e).__name__}: {e}\n' + traceback.format_exc() + f'\nlast case: {json.dumps(last.get("case"), default=str)[:2000]}'
@@ -286,11 +295,18 @@ def make_machine_base():
                 getattr(self.driver, 'op_' + name)(*args)
             except _KnownSkip:
                 pass
+            except Violation as v:
+                self.LAST.setdefault('first_violation', {'case': json.loads(json.dumps(self.log, default=str)), 'message': str(v), 'sig': v.sig})
+                raise
 
         def start(self, *args):
             self.log.append(['init', *args])
             self.LAST['case'] = self.log
-            self.driver = self.DRIVER(self.CTX, *args)
+            try:
+                self.driver = self.DRIVER(self.CTX, *args)
+            except Violation as v:
+                self.LAST.setdefault('first_violation', {'case': json.loads(json.dumps(self.log, default=str)), 'message': str(v), 'sig': v.sig})
+                raise
 
         def teardown(self):
             if self.driver is not None:
